@@ -1561,7 +1561,22 @@ func joeRunScenario(v val.V, seq uint64, shm []byte) (status uint64, events []va
 	for h := range sc.shuts {
 		spec := &sc.shuts[h]
 		hi := uint64(h)
-		ctx, cancel := context.WithCancel(context.Background())
+		// of which kind Shutdown's context is: a plain cancellable one; one cancelled WITH A CAUSE (its error is still
+		// context.Canceled); a detached one - own Done / Err, values delegated to a live parent that has a cause slot
+		var ctx context.Context
+		var cancel func()
+		switch (h + len(sc.subs) + len(sc.pubs)) % 3 {
+		case 0:
+			ctx, cancel = context.WithCancel(context.Background())
+		case 1:
+			c, cf := context.WithCancelCause(context.Background())
+			ctx, cancel = c, func() { cf(codeErr{code: 77}) }
+		default:
+			parent, pcancel := context.WithCancelCause(context.Background())
+			defer pcancel(nil)
+			d := &detachedCtx{parent: parent, done: make(chan struct{})}
+			ctx, cancel = d, d.end
+		}
 		x.mu.Lock()
 		x.shutIdx[ctx] = hi
 		x.mu.Unlock()
@@ -1604,4 +1619,26 @@ func joeRunScenario(v val.V, seq uint64, shm []byte) (status uint64, events []va
 	x.shm = nil
 	x.mu.Unlock()
 	return status, events
+}
+
+// detachedCtx ends on its own (Err: context.DeadlineExceeded) and answers Value from a parent that is still alive.
+type detachedCtx struct {
+	parent context.Context
+	done   chan struct{}
+	once   sync.Once
+	mu     sync.Mutex
+	err    error
+}
+
+func (d *detachedCtx) Deadline() (time.Time, bool) { return time.Time{}, false }
+func (d *detachedCtx) Done() <-chan struct{}       { return d.done }
+func (d *detachedCtx) Err() error                  { d.mu.Lock(); defer d.mu.Unlock(); return d.err }
+func (d *detachedCtx) Value(k any) any             { return d.parent.Value(k) }
+func (d *detachedCtx) end() {
+	d.once.Do(func() {
+		d.mu.Lock()
+		d.err = context.DeadlineExceeded
+		d.mu.Unlock()
+		close(d.done)
+	})
 }
